@@ -67,7 +67,7 @@ def g_retrieval(prop):
     for kind in ('function', 'instance'):
         for node in ('FunctionDef', 'Assign'):
             T.append(dict(mode='forged', kind=kind, node=node))
-    T += [dict(mode='af_ast'), dict(mode='as_forged'), dict(mode='fwd')]
+    T += [dict(mode='af_ast'), dict(mode='as_forged'), dict(mode='fwd'), dict(mode='sphinx'), dict(mode='recursion')]
     return dict(name='retrieval', bound='none (tier P): the inspected object is symbolic - presence of every attribute the units touch in the '
                 'instance dict / on the type, every external outcome (inspect.signature, getsource, ast.parse, forger, hint, descriptors) '
                 'and every exception class are solver variables; kinds of object: function, callable instance; class of the parsed node enumerated',
@@ -122,6 +122,22 @@ def g_modifiers(prop, bound, q):
                 exhaustive=True, tasks=[dict(module='contracts.modifiers', want=[prop], args=a, cross=False) for a in T])
 
 
+def g_discovery(prop, q):
+    from contracts.discovery import CONTEXTS, KILLERS, MARKERS, BINDERS
+    T = [dict(mode='resolve', marker=m, unknown=u) for m in MARKERS for u in (False, True)]
+    for c in CONTEXTS:
+        for k in KILLERS:
+            for o in ('before', 'after'):
+                T.append(dict(mode='visitor', context=c, killer=k, order=o, explicit=False))
+                if (not q) or (c in ('expr', 'lambda') and k in ('assign', 'handover', 'method_call', 'unrelated')):
+                    T.append(dict(mode='visitor', context=c, killer=k, order=o, explicit=True))
+    T += [dict(mode='binders', row=i) for i in range(len(BINDERS))]
+    return dict(name='discovery', bound='resolve_name: none (tier P). Visitor: program templates = one forwarding call in each of %d contexts x one interfering statement of %d kinds '
+                'before / after it, with or without explicit arguments; EVERY identifier in the template is a solver variable (may or may not coincide with *args, **kwargs, '
+                'the first parameter, each other). Binder table: %d constructs of the ASDL grammar' % (len(CONTEXTS), len(KILLERS), len(BINDERS)),
+                exhaustive=True, tasks=[dict(module='contracts.discovery', want=[prop], args=a, cross=False) for a in T])
+
+
 def plan(prop, tier, seed=0):
     """returns list of job groups: dict(name, tasks, bound, exhaustive)"""
     q = tier == 'quick'
@@ -170,6 +186,10 @@ def plan(prop, tier, seed=0):
                    tasks=[dict(module='contracts.support', want=[prop], args=dict(mode='roundtrip', shape=(i, 16)), cross=False) for i in range(16)])]
     if prop == 'C14':
         G += [g_dropin(prop, B1), g_partial(prop, B1 if q else (1, 2, 1, 3), 0, 'plain')]
+    if prop in ('C05', 'C06', 'C07'):
+        G += [g_discovery(prop, q)]
+    if prop in ('C05', 'C07'):
+        G += [g_forwards(prop, BS, 1, 60 if q else 1200, seed)]      # narrowing: every element of discovery only accepts what the def accepts
     if prop in ('C04', 'C05', 'C06', 'C07', 'C15', 'C16', 'C13'):
         G += [g_retrieval(prop)]
     if prop in ('C01', 'C02', 'C04', 'C08', 'C09', 'C10', 'C11', 'C15', 'C16', 'C19'):
